@@ -21,7 +21,7 @@ Where the full statement is false of the code as it is, it is kept as a `def …
 Prop`, with the strongest `_partial` theorem (explicit side conditions) and a
 `_counterexample` from a concrete witness.  Helper lemmas live in
 CtyModel/Lemmas/{CoversBasic,CoversWeaken,OpsLogic,OpsCompare,OpsArith,OpsColl,
-OpsEquals,OpsIncludes,OpsAddSub,OpsDerived,OpsSets,OpsMul,OpsKnown,d01Ext,d01Round,d01Arith,d01Range,d01Mul}.lean.
+OpsEquals,OpsIncludes,OpsAddSub,OpsDerived,OpsSets,OpsMul,OpsKnown,d01Ext,d01Round,d01Arith,d01Range,d01Mul,d01Side,d01Has}.lean.
 -/
 import CtyModel.Lemmas.OpsEquals
 import CtyModel.Lemmas.OpsIncludes
@@ -31,6 +31,7 @@ import CtyModel.Lemmas.OpsSets
 import CtyModel.Lemmas.OpsMul
 import CtyModel.Lemmas.d01Mul
 import CtyModel.Lemmas.d01Side
+import CtyModel.Lemmas.d01Has
 namespace CtyModel
 namespace C01
 open Value
@@ -342,6 +343,18 @@ theorem equals_set_never_definite (a b r : Value) {e : Ty} {ix iy : List Int} {x
     (h : Value.equals a b = .ok r) : r.isKnown = false :=
   equals_set_unknown a b r hta hte hpa hpb hlx hly hnk h
 
+/-- … and that unknown answer admits whatever `Equals` answers on the sets the two
+operands stand for: soundness of `Equals` on two sets of the same type as soon as a
+member of either weakened set is not wholly known (no hypothesis on how the weakened
+sets relate to the concrete ones is needed). -/
+theorem sound_equals_set_unknown_member (w₁ w₂ o₁ o₂ r' r : Value) {e : Ty} {ix iy : List Int} {xs ys : List Payload}
+    (hta : w₁.ty = .set e) (hte : Ty.equals (.set e) w₂.ty = true)
+    (hpa : w₁.v.stripMarks = .sset ix xs) (hpb : w₂.v.stripMarks = .sset iy ys)
+    (hlx : ix.length = xs.length) (hly : iy.length = ys.length)
+    (hnk : Payload.whollyKnownL xs = false ∨ Payload.whollyKnownL ys = false)
+    (hw : Value.equals w₁ w₂ = .ok r') (ho : Value.equals o₁ o₂ = .ok r) : Covers r' r = true :=
+  equals_unknown_covers hw (equals_set_unknown w₁ w₂ r' hta hte hpa hpb hlx hly hnk hw) ho
+
 /-- the former counterexample (a set against a set holding `(unknown)`), now a regression case -/
 theorem equals_set_regression :
     Value.equals ⟨.set (.tuple [.bool]), .sset [5] [.seq [.b true]]⟩ ⟨.set (.tuple [.bool]), .sset [5] [.seq [.b true]]⟩
@@ -351,7 +364,7 @@ theorem equals_set_regression :
     Covers unkBool (boolVal true) = true :=
   ⟨by rfl, by rfl, by decide⟩
 
-/-! ## Soundness: HasElement (counterexample only — sets are the frontier) -/
+/-! ## Soundness: HasElement (counterexample for the full statement; sound for operands replaced as a whole) -/
 
 /-- FALSE: a known candidate element holding an unknown is answered False although
 the set holds the element it stands for (DESIGN §8 #1). -/
@@ -364,6 +377,32 @@ theorem sound_hasElement_counterexample :
       = .ok (boolVal false) ∧
     CoversX ⟨.list .number, .seq [.unk .unref]⟩ ⟨.list .number, .seq [.n (Num.ofInt 1)]⟩ = true :=
   ⟨by rfl, by rfl, by decide⟩
+
+/-- The positive part: HasElement is sound when each operand is kept as it is or
+replaced AS A WHOLE — the set by any unknown (refined or not) or `DynamicVal`, the
+candidate element by an unknown of its own type or by `DynamicVal` (`eh'` is the hash
+oracle of the weakened needle: the concrete one when the needle is kept, anything
+otherwise).  The weakened call then answers "unknown", or the same definite False
+from the type guard.  What is excluded is exactly what is false or unproved: a KNOWN
+needle holding an unknown inside and type constraints with the placeholder inside (the
+two recorded findings, `sound_hasElement_counterexample`), and members of the set
+weakened in place (frontier: searched by the harness, no theorem). -/
+theorem sound_hasElement_partial (s e ws we r : Value) (eh eh' : Option Int)
+    (hgs : ws.wfc = true) (hge : we.wfc = true)
+    (hs : ws = s ∨ ws.isKnown = false)
+    (he : (we = e ∧ eh' = eh) ∨ (we.isKnown = false ∧ (we.ty = e.ty ∨ we.ty = .dyn)))
+    (ho : Value.hasElement s e eh = .ok r) : ∃ r', Value.hasElement ws we eh' = .ok r' ∧ Covers r' r = true :=
+  hasElement_sound_whole s e ws we r eh eh' (wfc_flat hgs) (wfc_flat hge) hs he ho
+
+/-- non-trivial instances: the set `{[1]}` replaced by an unknown set of lists, the
+needle `[1]` by an unknown list, by `DynamicVal`; each admits the concrete answer True -/
+theorem sound_hasElement_examples :
+    Value.hasElement ⟨.set (.list .number), .sset [7] [.seq [.n (Num.ofInt 1)]]⟩ ⟨.list .number, .seq [.n (Num.ofInt 1)]⟩ (some 7)
+      = .ok (boolVal true) ∧
+    Value.hasElement ⟨.set (.list .number), .unk (.coll .f 1 3)⟩ ⟨.list .number, .seq [.n (Num.ofInt 1)]⟩ (some 7) = .ok unkBool ∧
+    Value.hasElement ⟨.set (.list .number), .sset [7] [.seq [.n (Num.ofInt 1)]]⟩ ⟨.list .number, .unk .unref⟩ none = .ok unkBool ∧
+    Value.hasElement ⟨.set (.list .number), .sset [7] [.seq [.n (Num.ofInt 1)]]⟩ dynVal none = .ok unkBool ∧
+    Covers unkBool (boolVal true) = true := ⟨by rfl, by rfl, by rfl, by rfl, by decide⟩
 
 /-! ## `ValueRange.Includes` answers False only for what the range does not admit -/
 
